@@ -26,6 +26,9 @@ func propC07(c *Ctx) {
 	rf := c.Rule("frame0-reset", "every field of the call frame that run-time code reads is stored for frame 0 on every path of Run's prologue", 3)
 	ruleFrame0Reset(c, rf, vf)
 
+	rdu := c.Rule("defer-unlock", "Run, Clear, SetBytecode and friends release the VM mutex by defer: after a panic escaped Run (recovery off) the VM can still be cleared and re-used", 1)
+	ruleDeferUnlock(c, rdu, l.RepoFuncs(func(pp string) bool { return pp == modPath }))
+
 	// ---- clear ------------------------------------------------------------------------------
 	rc := c.Rule("clear", "Clear stores to every stack slot, the module cache and the globals and empties the child pool; SetBytecode stores the bytecode, the constants and resets the module cache (module indexes are per bytecode)", 2)
 	for _, spec := range []struct {
